@@ -361,6 +361,83 @@ def check_handled_member(case: t.Any, ctx: Ctx) -> None:
         ctx.fail('reparse', f"handled-member:{field}", f"{ident}: written as {short(d, 120)}, read back as {short(y, 120)} ({k3})")
 
 
+# ---- one enum written in several handler contexts of one process ------------------------------------------------------------------
+#
+# The data form of an enum member is the data form of its value, and that depends on the handlers in effect (a dataclass which stores
+# ints as hex text stores its int-valued enum members so too).  Each context reads back what it wrote, whichever context wrote the
+# member first.
+
+import itertools as _it
+
+_EH: t.Dict[str, t.Any] = {}
+EH_CONTEXTS = ['plain', 'class-handler', 'call-handler', 'list-in-class']
+
+
+def eh_cases(shard: int, nshards: int) -> t.Iterator[t.Any]:
+    i = 0
+    for order in _it.permutations(range(len(EH_CONTEXTS)), 3):
+        for member in ('LOW', 'HIGH'):
+            if i % nshards == shard:
+                yield [list(order), member]
+            i += 1
+
+
+def check_enum_contexts(case: t.Any, ctx: Ctx) -> None:
+    import enum
+    import pane
+    from pane.converters import Converter
+    from pane.errors import ParseInterrupt, WrongTypeError
+    (order, member) = case
+
+    class HexInt(Converter):      # type: ignore
+        def expected(self, plural: bool = False) -> str:
+            return 'hex text'
+
+        def try_convert(self, val: t.Any) -> t.Any:
+            if not isinstance(val, str) or not val.startswith('0x'):
+                raise ParseInterrupt()
+            return int(val, 16)
+
+        def collect_errors(self, val: t.Any) -> t.Any:
+            return None if isinstance(val, str) and val.startswith('0x') else WrongTypeError(self.expected(), val)
+
+        def into_data(self, val: t.Any) -> t.Any:
+            return hex(val)
+    # (a fresh enum and fresh classes per case: what is remembered about one case's members must not help the next)
+    Level = enum.Enum('Level', {'LOW': 1, 'HIGH': 31})
+    H = {int: HexInt()}
+    Reg = type('Register', (pane.PaneBase,), {'__annotations__': {'addr': int, 'level': Level}}, custom=H)
+    Regs = type('Registers', (pane.PaneBase,), {'__annotations__': {'levels': t.List[Level]}}, custom=H)
+    m = Level[member]
+    ctx.label('enum-contexts')
+    ctx.nontrivial(True)
+    forms = {
+        'plain': (Level, None, m.value, m),
+        'class-handler': (Reg, None, {'addr': '0x10', 'level': hex(m.value)}, None),
+        'call-handler': (t.Dict[str, Level], H, {'k': hex(m.value)}, {'k': m}),
+        'list-in-class': (Regs, None, {'levels': [hex(m.value), '0x1']}, None),
+    }
+    done: t.List[str] = []
+    for ci in order:
+        cname = EH_CONTEXTS[ci]
+        (T, custom, data, want) = forms[cname]
+        ident = f"enum Level(LOW=1, HIGH=31), member {member}, in context {cname!r} (after {done}); data {data!r}"
+        ctx.evaluated()
+        (k, x) = outcome(lambda: pane.from_data(data, T, custom=custom))
+        if k != 'ok' or (want is not None and x != want):
+            ctx.fail('reparse', f"enum-contexts:read:{cname}", f"{ident}: from_data gave {short(x, 150)}")
+            return
+        (k2, d) = outcome(lambda: pane.into_data(x, T, custom=custom))
+        if k2 != 'ok' or d != data or non_interchange(d) is not None:
+            ctx.fail('reparse', f"enum-contexts:written:{cname}", f"{ident}: read as {short(x, 100)}, written as {short(d, 150)}")
+            return
+        (k3, y) = outcome(lambda: pane.from_data(d, T, custom=custom))
+        if k3 != 'ok' or y != x:
+            ctx.fail('reparse', f"enum-contexts:reread:{cname}", f"{ident}: written as {short(d, 100)}, read back as {short(y, 150)}")
+            return
+        done.append(cname)
+
+
 def suites(tier: str) -> t.List[Suite]:
     big = tier == 'thorough'
     leaves = 8 if big else 4
@@ -370,5 +447,7 @@ def suites(tier: str) -> t.List[Suite]:
               render=lambda c: {'layout': c[0], 'a': c[1], 'derived field first': c[2], 'rename': c[3]}),
         Suite('handled-member', check_handled_member, cases=hm_cases, exhaustive=True, budget_s=30,
               render=lambda c: {'handler from': c[0], 'field': c[1], 'value present': c[2]}),
+        Suite('enum-contexts', check_enum_contexts, cases=eh_cases, exhaustive=True, budget_s=30,
+              render=lambda c: {'contexts in this order': [EH_CONTEXTS[i] for i in c[0]], 'member': c[1]}),
         Suite('overlap-unions', check, strategy=lambda: cases(gen.overlap_union_specs()), examples=4000 if big else 450, budget_s=300 if big else 30, render=gen.render_case),
     ]
